@@ -396,7 +396,7 @@ func compileEntity(d *fileDecl) (out compiled) {
 	return
 }
 
-const c17Shard = 40
+const c17Shard = 25
 
 func runC17(cfg *vh.Config) error {
 	log.SetOutput(io.Discard) // the compiler logs every walker error
@@ -442,6 +442,9 @@ func runC17(cfg *vh.Config) error {
 		text := d.j5s()
 		distinct.Add(text)
 		res.Count("entity_" + kinds[i])
+		for _, e := range d.Ents {
+			countShape(res, e)
+		}
 		out := compileEntity(d)
 		in := map[string]any{"j5s": text}
 		malformed := kinds[i] == "unknown-default-status" || kinds[i] == "duplicate-summary" || kinds[i] == "optional-required" || kinds[i] == "missing-path-field"
@@ -854,5 +857,73 @@ func oracleClient(res *vh.Result, caseNo int, d *entityDecl, ents []*client_j5pb
 	}
 	if strings.Join(prim, ",") != strings.Join(e.PrimaryKey, ",") {
 		fail("C17 client StateEntity primary keys are not the declared primary keys in order", "primary-key fields ... in declaration order", strings.Join(e.PrimaryKey, ","))
+	}
+}
+
+// countShape records which corners of the declaration space a case touches.
+func countShape(res *vh.Result, e *entityDecl) {
+	n := e.Name
+	switch {
+	case endsCap(n):
+		res.Count("name_ends_in_capital")
+	case strings.ContainsAny(n, "0123456789"):
+		res.Count("name_with_digit")
+	case strings.Contains(n, "_"):
+		res.Count("name_with_underscore")
+	case n[0] >= 'a' && n[0] <= 'z':
+		res.Count("name_lower_camel")
+	default:
+		res.Count("name_upper_camel")
+	}
+	if strcase.ToCamel(strcase.ToSnake(n)) != strcase.ToCamel(n) {
+		res.Count("name_query_prefix_differs")
+	}
+	prim, shard, foreign, tenant, scalarKey := 0, 0, 0, 0, 0
+	for _, k := range e.Keys {
+		if k.Key && k.Primary {
+			prim++
+		}
+		if k.Shard {
+			shard++
+		}
+		if k.Foreign != nil {
+			foreign++
+		}
+		if k.Tenant != nil {
+			tenant++
+		}
+		if !k.Key {
+			scalarKey++
+		}
+	}
+	res.Count(fmt.Sprintf("keys_%d", len(e.Keys)))
+	res.Count(fmt.Sprintf("primary_keys_%d", prim))
+	if shard > 0 {
+		res.Count("with_shard_key")
+	}
+	if foreign > 0 {
+		res.Count("with_foreign_key")
+	}
+	if tenant > 0 {
+		res.Count("with_tenant_key")
+	}
+	if scalarKey > 0 {
+		res.Count("with_non_key_typed_key")
+	}
+	res.Count(fmt.Sprintf("events_%d", len(e.Events)))
+	res.Count(fmt.Sprintf("commands_%d", len(e.Commands)))
+	res.Count(fmt.Sprintf("summaries_%d", len(e.Summaries)))
+	res.Count(fmt.Sprintf("statuses_%d", len(e.Status)))
+	if e.Query != nil {
+		res.Count("with_query_settings")
+		if len(e.Query.DefaultStatus) > 0 {
+			res.Count("with_default_status_filter")
+		}
+		if e.Query.EventsInGet {
+			res.Count("with_events_in_get")
+		}
+	}
+	if e.BaseURL != "" {
+		res.Count("with_base_url_override")
 	}
 }
